@@ -456,7 +456,22 @@ func runCase(c *vlib.Ctx, caseID string, r *vlib.Rand, ref refcodec.RefPack, mk 
 	var frames [][]byte
 	sendErr := ""
 	local := ""
-	for _, pl := range plans {
+	// One case in three (direct mode): the client's default license is replaced after the second
+	// send, as a configuration reload does; later sends without an override carry the new hash.
+	relicenseAt := -1
+	if !queued && r.Chance(1, 3) {
+		relicenseAt = 2
+		c.Count("relicense_cases", 1)
+	}
+	for pi, pl := range plans {
+		if pi == relicenseAt {
+			defLic = "reloaded-" + defLic
+			cl.License = defLic
+		}
+		if pi >= relicenseAt && relicenseAt >= 0 && !(pl.withLic && ovrLic != "") {
+			pl.lic = defLic
+			plans[pi].lic = defLic
+		}
 		p := shared
 		if p == nil {
 			p = mk()
